@@ -122,10 +122,17 @@ func classifyLoop(c *Ctx, l loopInfo) (kind string, regular bool, detail string)
 			}
 			return nil, 0
 		}
-		invariant := func(v ssa.Value) bool {
+		var invariant func(v ssa.Value) bool
+		invariant = func(v ssa.Value) bool {
 			switch x := v.(type) {
 			case *ssa.Const, *ssa.Parameter:
 				return true
+			case *ssa.BinOp:
+				// arithmetic over invariants (`len(s)/2`)
+				if !l.body[x.Block()] {
+					return true
+				}
+				return invariant(x.X) && invariant(x.Y)
 			case ssa.Instruction:
 				// defined outside the loop, or a pure re-read (len / NumField / field load) of something not stored in the loop
 				if !l.body[x.Block()] {
